@@ -83,51 +83,74 @@ theorem other_ranks (hnd : (v :: rest).Nodup) (hok : OpsOK U (v :: rest) ops) (o
       simp [this] at h2
   exact ⟨this, fun hv => hvr (this.subset hv)⟩
 
+/-- placing the payloads delivered for the participants = replacing each participant in place -/
+theorem place_map (v : Nat) (f : Cur κ → Cur κ) : ∀ (ops : List (Cur κ)),
+    place v ops ((ops.filter (isPart v)).map f) = ops.map (fun c => if isPart v c then f c else c)
+  | [] => rfl
+  | c :: cs => by
+    by_cases h : isPart v c = true
+    · simp only [List.filter_cons, h, if_true, List.map_cons, place]
+      rw [place_map v f cs]
+    · have h' : isPart v c = false := by simpa using h
+      simp only [List.filter_cons, h', Bool.false_eq_true, if_false, List.map_cons, place]
+      rw [place_map v f cs]
+
 /-- the operand cursors of the inner loops satisfy the hypotheses again -/
 theorem step_ok (hnd : (v :: rest).Nodup) (hok : OpsOK U (v :: rest) ops) (c : κ) :
-    OpsOK U rest ((ops.filter (isPart v)).map (Cur.at c) ++ ops.filter (fun c => !isPart v c)) := by
-  have hP := parts_of_ok hok
+    OpsOK U rest (ops.map (fun x => if isPart v x then Cur.at c x else x)) := by
   have hvr : v ∉ rest := (List.nodup_cons.1 hnd).1
+  have hother : ∀ x ∈ ops, isPart v x = false → x.ranks.Sublist rest := fun x hx hp =>
+    (other_ranks hnd hok x (List.mem_filter.2 ⟨hx, by simp [hp]⟩)).1
   refine ⟨?_, ?_, ?_, ?_⟩
-  · intro x hx
-    rcases List.mem_append.1 hx with hx | hx
-    · obtain ⟨p, hp, rfl⟩ := List.mem_map.1 hx
-      obtain ⟨hpv, _⟩ := hP p hp
-      obtain ⟨rs, t, rfl⟩ := isPart_iff.1 hpv
-      have := hok.conc _ (List.mem_filter.1 hp).1
-      exact List.cons_sublist_cons.1 this
-    · exact (other_ranks hnd hok x hx).1
+  · intro y hy
+    obtain ⟨x, hx, rfl⟩ := List.mem_map.1 hy
+    by_cases hp : isPart v x = true
+    · rw [if_pos hp]
+      obtain ⟨rs, t, rfl⟩ := isPart_iff.1 hp
+      exact List.cons_sublist_cons.1 (hok.conc _ hx)
+    · rw [if_neg hp]
+      exact hother x hx (by simpa using hp)
   · intro w hw
     obtain ⟨x, hx, hwx⟩ := hok.cover w (List.mem_cons_of_mem _ hw)
-    by_cases hpx : isPart v x = true
-    · obtain ⟨rs, t, rfl⟩ := isPart_iff.1 hpx
-      refine ⟨Cur.at c ⟨v :: rs, t⟩, List.mem_append.2 (Or.inl (List.mem_map.2 ⟨_, List.mem_filter.2 ⟨hx, hpx⟩, rfl⟩)), ?_⟩
+    refine ⟨_, List.mem_map.2 ⟨x, hx, rfl⟩, ?_⟩
+    by_cases hp : isPart v x = true
+    · rw [if_pos hp]
+      obtain ⟨rs, t, rfl⟩ := isPart_iff.1 hp
       rw [at_ranks]
       rcases List.mem_cons.1 hwx with h | h
       · exact absurd (h ▸ hw) hvr
       · exact h
-    · exact ⟨x, List.mem_append.2 (Or.inr (List.mem_filter.2 ⟨hx, by simpa using hpx⟩)), hwx⟩
-  · intro x hx
-    rcases List.mem_append.1 hx with hx | hx
-    · obtain ⟨p, hp, rfl⟩ := List.mem_map.1 hx
-      obtain ⟨hpv, hpw⟩ := hP p hp
-      obtain ⟨rs, t, rfl⟩ := isPart_iff.1 hpv
-      exact at_wf v rs t hpw c
-    · exact hok.wf x (List.mem_filter.1 hx).1
-  · intro x hx
-    rcases List.mem_append.1 hx with hx | hx
-    · obtain ⟨p, hp, rfl⟩ := List.mem_map.1 hx
-      obtain ⟨hpv, hpw⟩ := hP p hp
-      obtain ⟨rs, t, rfl⟩ := isPart_iff.1 hpv
-      exact at_in U v rs t hpw (hok.inU _ (List.mem_filter.1 hp).1) c
-    · exact hok.inU x (List.mem_filter.1 hx).1
+    · rw [if_neg hp]; exact hwx
+  · intro y hy
+    obtain ⟨x, hx, rfl⟩ := List.mem_map.1 hy
+    by_cases hp : isPart v x = true
+    · rw [if_pos hp]
+      obtain ⟨rs, t, rfl⟩ := isPart_iff.1 hp
+      exact at_wf v rs t (hok.wf _ hx) c
+    · rw [if_neg hp]; exact hok.wf x hx
+  · intro y hy
+    obtain ⟨x, hx, rfl⟩ := List.mem_map.1 hy
+    by_cases hp : isPart v x = true
+    · rw [if_pos hp]
+      obtain ⟨rs, t, rfl⟩ := isPart_iff.1 hp
+      exact at_in U v rs t (hok.wf _ hx) (hok.inU _ hx) c
+    · rw [if_neg hp]; exact hok.inU x hx
 
 /-- inside the loop body the product of the operands is the product of the delivered payloads
     and the operands that did not take part -/
 theorem prodVal_step (hnd : (v :: rest).Nodup) (hok : OpsOK U (v :: rest) ops) (σ : Nat → κ) :
-    prodVal ops σ =
-      prodVal ((ops.filter (isPart v)).map (Cur.at (σ v)) ++ ops.filter (fun c => !isPart v c)) σ := by
-  rw [prodVal_split v ops σ, prodVal_append, prodVal_at v _ (parts_of_ok hok) σ]
+    prodVal ops σ = prodVal (ops.map (fun x => if isPart v x then Cur.at (σ v) x else x)) σ := by
+  unfold prodVal
+  rw [List.map_map]
+  congr 1
+  apply List.map_congr_left
+  intro x hx
+  show cval x σ = cval (if isPart v x then Cur.at (σ v) x else x) σ
+  by_cases hp : isPart v x = true
+  · rw [if_pos hp]
+    obtain ⟨rs, t, rfl⟩ := isPart_iff.1 hp
+    exact cval_at v rs t (hok.wf _ hx) σ
+  · rw [if_neg hp]
 
 /-- a coordinate without a row: some participant does not present it, the product is zero -/
 theorem prodVal_absent (hnd : (v :: rest).Nodup) (hok : OpsOK U (v :: rest) ops)
@@ -167,12 +190,12 @@ theorem esum_row (hnd : (v :: rest).Nodup) (hok : OpsOK U (v :: rest) ops)
     (rows : Fib κ (List (Cur κ))) (hrows : RowsOK (ops.filter (isPart v)) rows)
     (r : κ × List (Cur κ)) (hr : r ∈ rows) (C : (Nat → κ) → Prop) [DecidablePred C] (σ0 : Nat → κ) :
     esum U rest (fun σ => if C σ then prodVal ops σ else 0) (upd σ0 v r.1) =
-    esum U rest (fun σ => if C σ then prodVal (r.2 ++ ops.filter (fun c => !isPart v c)) σ else 0) (upd σ0 v r.1) := by
+    esum U rest (fun σ => if C σ then prodVal (place v ops r.2) σ else 0) (upd σ0 v r.1) := by
   have hvr : v ∉ rest := (List.nodup_cons.1 hnd).1
   apply esum_congr
   intro σ hσ
   have hσv : σ v = r.1 := by rw [hσ v hvr, upd_same]
-  rw [prodVal_step hnd hok σ, hσv, ← hrows.sub r hr]
+  rw [prodVal_step hnd hok σ, hσv, hrows.sub r hr, place_map]
 
 /-- the inner sums at a coordinate without a row vanish -/
 theorem esum_absent (hnd : (v :: rest).Nodup) (hok : OpsOK U (v :: rest) ops)
@@ -193,7 +216,7 @@ theorem sum_rows (hU : Asc U) (hnd : (v :: rest).Nodup) (hok : OpsOK U (v :: res
     (C : (Nat → κ) → Prop) [DecidablePred C] (σ0 : Nat → κ) :
     esum U (v :: rest) (fun σ => if C σ then prodVal ops σ else 0) σ0 =
     (rows.map (fun r => esum U rest
-      (fun σ => if C σ then prodVal (r.2 ++ ops.filter (fun c => !isPart v c)) σ else 0) (upd σ0 v r.1))).sum := by
+      (fun σ => if C σ then prodVal (place v ops r.2) σ else 0) (upd σ0 v r.1))).sum := by
   simp only [esum]
   rw [sum_support (fun c => esum U rest (fun σ => if C σ then prodVal ops σ else 0) (upd σ0 v c)) U rows hU
     hrows.sorted (row_key_in hnd hok rows hrows)
@@ -262,9 +285,9 @@ theorem run_spec (style : Style) (U : List κ) (hU : Asc U) :
     have hrows := rowsOK style v _ hP hne
     -- the inner loops, started from any row
     have inner : ∀ (r : κ × List (Cur κ)), r ∈ coiter style (ops.filter (isPart v)) →
-        OpsOK U rest (r.2 ++ ops.filter (fun c => !isPart v c)) := by
+        OpsOK U rest (place v ops r.2) := by
       intro r hr
-      rw [hrows.sub r hr]
+      rw [hrows.sub r hr, place_map]
       exact step_ok hnd hok r.1
     cases zr with
     | nil =>
@@ -272,15 +295,15 @@ theorem run_spec (style : Style) (U : List κ) (hU : Asc U) :
       have hrun : run style (v :: rest) ops [] z =
           (coiter style (ops.filter (isPart v))).foldl
             (fun (acc : Tree κ Int ([] : List Nat).length) r =>
-              run style rest (r.2 ++ ops.filter (fun c => !isPart v c)) [] acc) z := rfl
+              run style rest (place v ops r.2) [] acc) z := rfl
       refine ⟨trivial, ?_⟩
       intro σ0 q hq
       rw [hrun]
       have := foldl_inv
         (fun (acc : Tree κ Int ([] : List Nat).length) (r : κ × List (Cur κ)) =>
-          run style rest (r.2 ++ ops.filter (fun c => !isPart v c)) [] acc)
+          run style rest (place v ops r.2) [] acc)
         (fun _ => True) (fun acc => val (0 : Int) 0 acc q)
-        (fun r => einsum U rest (r.2 ++ ops.filter (fun c => !isPart v c)) (fun σ => ([] : List Nat).map σ) q (upd σ0 v r.1))
+        (fun r => einsum U rest (place v ops r.2) (fun σ => ([] : List Nat).map σ) q (upd σ0 v r.1))
         (coiter style (ops.filter (isPart v))) z
         (fun acc r hr _ => ⟨trivial, (ih _ [] acc hnd' (inner r hr) (List.nil_sublist _) trivial).2 (upd σ0 v r.1) q hq⟩)
         trivial
@@ -296,7 +319,7 @@ theorem run_spec (style : Style) (U : List κ) (hU : Asc U) :
         have hrun : run style (zv :: rest) ops (zv :: zr') z =
             (populate (0 : Int) zr'.length
               (fun _ cur (subs : List (Cur κ)) =>
-                run style rest (subs ++ ops.filter (fun c => !isPart zv c)) zr' cur)
+                run style rest (place zv ops subs) zr' cur)
               (show Tree κ Int (zr'.length + 1) from z) (coiter style (ops.filter (isPart zv)))).1 := by
           simp [run]
         rw [hrun]
@@ -376,14 +399,14 @@ theorem run_spec (style : Style) (U : List κ) (hU : Asc U) :
         have hrun : run style (v :: rest) ops (zv :: zr') z =
             (coiter style (ops.filter (isPart v))).foldl
               (fun (acc : Tree κ Int (zv :: zr').length) r =>
-                run style rest (r.2 ++ ops.filter (fun c => !isPart v c)) (zv :: zr') acc) z := by
+                run style rest (place v ops r.2) (zv :: zr') acc) z := by
           simp [run, hzv]
         rw [hrun]
         have fold := fun (σ0 : Nat → κ) (q : List κ) (hq : q.length = (zv :: zr').length) => foldl_inv
           (fun (acc : Tree κ Int (zv :: zr').length) (r : κ × List (Cur κ)) =>
-            run style rest (r.2 ++ ops.filter (fun c => !isPart v c)) (zv :: zr') acc)
+            run style rest (place v ops r.2) (zv :: zr') acc)
           (fun acc => Ft.WF (zv :: zr').length acc) (fun acc => val (0 : Int) (zv :: zr').length acc q)
-          (fun r => einsum U rest (r.2 ++ ops.filter (fun c => !isPart v c)) (fun σ => (zv :: zr').map σ) q (upd σ0 v r.1))
+          (fun r => einsum U rest (place v ops r.2) (fun σ => (zv :: zr').map σ) q (upd σ0 v r.1))
           (coiter style (ops.filter (isPart v))) z
           (fun acc r hr hacc =>
             ⟨(ih _ (zv :: zr') acc hnd' (inner r hr) hzr' hacc).1,
@@ -392,7 +415,7 @@ theorem run_spec (style : Style) (U : List κ) (hU : Asc U) :
         constructor
         · exact (foldl_inv
             (fun (acc : Tree κ Int (zv :: zr').length) (r : κ × List (Cur κ)) =>
-              run style rest (r.2 ++ ops.filter (fun c => !isPart v c)) (zv :: zr') acc)
+              run style rest (place v ops r.2) (zv :: zr') acc)
             (fun acc => Ft.WF (zv :: zr').length acc) (fun _ => 0) (fun _ => 0)
             (coiter style (ops.filter (isPart v))) z
             (fun acc r hr hacc => ⟨(ih _ (zv :: zr') acc hnd' (inner r hr) hzr' hacc).1, by simp⟩)
